@@ -96,7 +96,8 @@ struct Explorer {
     for (int k = 0; k < 2; k++) { p = err.find("#0 ", p); if (p == std::string::npos) break; size_t e = err.find('\n', p); std::string l = err.substr(p + 3, e - p - 3);
       size_t sl = l.rfind('/'); size_t sp = l.find(' ', sl == std::string::npos ? 0 : sl); std::string loc = l.substr(sl == std::string::npos ? 0 : sl + 1, sp == std::string::npos ? std::string::npos : sp - sl - 1);
       size_t c2 = loc.rfind(':'); if (c2 != std::string::npos && loc.find(':') != c2) loc = loc.substr(0, c2);   // drop column
-      key += (k ? "~" : "") + loc; p = e; }
+      if (k == 0) key = loc; else key = (loc < key) ? loc + "~" + key : key + "~" + loc;   // unordered pair
+      p = e; }
     return key;
   }
 
